@@ -509,6 +509,17 @@ class Executor:
             return ('agg', 'tuple', '', '', (), ())
         return None
 
+    def resolve_refs(self, body, fid, st, v, depth=0):
+        """The value with references replaced by what they point to at this moment (for reading aggregates that
+        carry references, e.g. Notification::Rename(&old, &new))."""
+        if depth > 3:
+            return v
+        if v[0] == 'ref':
+            return self.resolve_refs(body, fid, st, self.read_place(body, fid, st, v[1]), depth + 1)
+        if v[0] == 'agg':
+            return v[:5] + (tuple(self.resolve_refs(body, fid, st, x, depth + 1) for x in v[5]),)
+        return v
+
     def mut_targets(self, v, tystr, acc, depth=0):
         if depth > 6:
             return
@@ -682,8 +693,9 @@ class Executor:
                 st.ncalls += 1
                 cid = st.ncalls
                 derefs = [self.read_place(body, fid, st, a[1]) if a[0] == 'ref' else None for a in args]
+                argvals = [self.resolve_refs(body, fid, st, a) for a in args]
                 ev = {'kind': 'call', 'id': cid, 'decl': decl, 'res': res, 'selfty': t['selfty'], 'args': args,
-                      'derefs': derefs,
+                      'derefs': derefs, 'argvals': argvals,
                       'argtys': [a.get('place', {}).get('ty', a.get('ty', '')) for a in t['args']],
                       'block': block, 'span': t['span'], 'body': body.nname, 'depth': depth, 'fid': fid,
                       'diverges': t['target'] < 0, 'gargs': t['gargs']}
